@@ -131,7 +131,9 @@ func (v *version) Clone() *version {
 	clone.nonce = make([]byte, len(v.nonce))
 	copy(clone.nonce, v.nonce)
 
-	// not copying metadata
+	// not copying metadata: the copy of the struct above still points to the map of the original,
+	// writing into it would silently alter the original version (and the id derived from it)
+	clone.metadata = nil
 
 	return &clone
 }
